@@ -165,6 +165,10 @@ func main() {
 	// the unrelated CRL lists a few serials under the other issuer
 	otherSpec := gen.SpecFor(other.Int, gen.Entries(rand.New(rand.NewSource(99)), gen.Opts{N: 50}))
 	otherDER := otherSpec.Build(other.Int.Key).DER
+	otherWorld = other
+	for _, e := range otherSpec.Entries {
+		otherListedSerials = append(otherListedSerials, e.Serial)
+	}
 	otherFile := filepath.Join(scratch, "other.crl")
 	_ = os.WriteFile(otherFile, otherDER, 0644)
 	w.CRL.Set("/other.crl", origin.Good(otherDER))
@@ -230,7 +234,14 @@ func main() {
 	run.FinishShard()
 }
 
+// the unrelated second PKI and the serials its CRL lists (set once per worker process)
+var (
+	otherWorld         *world.World
+	otherListedSerials []*big.Int
+)
+
 func runCase(run *report.Run, w *world.World, c caseSpec, scratch, intPEM, otherPEM, otherFile string) {
+	other, otherListed := otherWorld, otherListedSerials
 	t0 := time.Now()
 	defer func() {
 		if d := time.Since(t0); d > 3*time.Second && os.Getenv("VERIF_DEBUG") != "" {
@@ -402,6 +413,18 @@ func runCase(run *report.Run, w *world.World, c caseSpec, scratch, intPEM, other
 			cls = "last-1"
 		}
 		run.NonTrivial(c.desc() + " pos=" + cls)
+	}
+	// the second configured CRL (another PKI, configured by crl_files next to whatever the first source
+	// is) is in force too: a certificate of that PKI which it lists is rejected
+	if c.Second && len(otherListed) > 0 {
+		s2 := otherListed[c.ID%len(otherListed)]
+		ch2 := other.Leaf(s2, nil, nil)
+		run.Eval(1)
+		if err := v.Verify(ch2); err == nil {
+			run.Violation(fmt.Sprintf("listed-accepted.second-configured-crl.first-source-%s.%s", c.Source, c.Storage), fmt.Sprintf("serial %s listed in the second configured CRL (crl_files, other issuer) accepted | %s", s2, c.desc()), rp(map[string]any{"serial": s2.String()}))
+		} else {
+			run.Count("second_crl_probes_rejected", 1)
+		}
 	}
 	// listed certificates must also be rejected while a refresh of the same CRL is in progress
 	// (the swap of the store is the critical window; seeded yields at the hook points widen it)
